@@ -163,12 +163,45 @@ class Body:
                     if 't' in t:
                         out.append((t['t'], 'call'))
                 elif k == 'switch':
-                    for v, tb in t['targets']:
-                        out.append((tb, ('sw', v)))
-                    out.append((t['otherwise'], ('sw', 'otherwise')))
+                    cv = self._const_discr(t['discr'])
+                    if cv is not None:
+                        # a switch on a literal (`if false && ..`, cfg!()) has one live edge: the others are not part of the CFG
+                        hit = [(tb, ('sw', v)) for v, tb in t['targets'] if v == cv]
+                        out.append(hit[0] if hit else (t['otherwise'], ('sw', 'otherwise')))
+                    else:
+                        for v, tb in t['targets']:
+                            out.append((tb, ('sw', v)))
+                        out.append((t['otherwise'], ('sw', 'otherwise')))
                 s.append(out)
             self._succ = s
         return self._succ
+
+    def _const_discr(self, op, depth=0):
+        """integer value of a switch discriminant that is a literal (directly or through single-definition copies), else None"""
+        if depth > 4:
+            return None
+        c = op_const(op)
+        if c is not None:
+            v = c.get('v')
+            if isinstance(v, bool):
+                return int(v)
+            if isinstance(v, int):
+                return v
+            if isinstance(v, str) and v.lower() in ('true', 'false'):
+                return 1 if v.lower() == 'true' else 0
+            return None
+        p = op_place(op)
+        if isinstance(p, dict) and not p.get('p'):
+            p = p.get('l')
+        if not isinstance(p, int):
+            return None
+        ds = self.defs.get(p, [])
+        if len(ds) != 1 or ds[0][0] != 'stmt':
+            return None
+        rv = ds[0][3].get('rv') or {}
+        if rv.get('k') == 'use':
+            return self._const_discr(rv['op'], depth + 1)
+        return None
 
     @property
     def pred(self):
